@@ -499,3 +499,46 @@ def h_e_read4_19(b: int, c: int, d: int, tn: bool) -> bool:
     post: _
     """
     return untraced(_read4, 19, pick(b, 0, 19), pick(c, 0, 19), pick(d, 0, 19), pickb(tn))
+
+
+# ------------------------------------------- every placement of blanks / line breaks between the tokens
+TOKS = ['1', '-2', '3', '0', '-1', '0', '2', '2', '0']
+
+
+def _separators(bits, wide, leading, trailing):
+    seps = [('\n' if (bits >> i) & 1 else ' ') for i in range(len(TOKS) - 1)]
+    if wide:
+        seps = [{' ': '  ', '\n': ' \n '}[x] for x in seps]
+    body = TOKS[0] + ''.join(s + t for s, t in zip(seps, TOKS[1:]))
+    text = ('c x\n' if leading else '') + 'p cnf 3 3\n' + body + ('\n' if trailing else '')
+    want = strict_read(text)
+    try:
+        F = CNF.from_file(io.StringIO(text))
+    except ValueError:
+        return want is None
+    return want is not None and F.number_of_variables() == want[0] and [list(c) for c in F.clauses()] == want[1]
+
+
+def h_e_separators(b0: int, b1: int, wide: bool, leading: bool, trailing: bool) -> bool:
+    """
+    pre: 0 <= b0 <= 15 and 0 <= b1 <= 15
+    post: _
+    """
+    return untraced(_separators, pick(b0, 0, 15) | (pick(b1, 0, 15) << 4), pickb(wide), pickb(leading), pickb(trailing))
+
+
+SIZES = [0, 1, 2, 255, 256, 257, 1023, 1024, 1025, 2047, 2048, 2049, 4097]
+
+
+def _big(si, header, varnames, width):
+    m = SIZES[si]
+    clauses = [[((i + j) % 7 + 1) * (1 if (i * j + j) % 3 else -1) for j in range(width)] for i in range(m)]
+    return _roundtrip(clauses, 0, header, varnames, 2, 1 if varnames else 0, None)
+
+
+def h_e_big(si: int, header: bool, varnames: bool, width: int) -> bool:
+    """
+    pre: 0 <= si <= 12 and 0 <= width <= 3
+    post: _
+    """
+    return untraced(_big, pick(si, 0, 12), pickb(header), pickb(varnames), pick(width, 0, 3))
